@@ -226,7 +226,13 @@ pub fn j_epoch(op: usize, ts: TimeScale, a: i128, s: i128, out: &mut Local) {
 
 pub fn steps() -> Vec<i128> {
     let mut v = vec![0i128];
-    for s in [1i128, 2, 3, 5, 7, 1000, NS_S, 10 * NS_S, 60 * NS_S, 3600 * NS_S, NS_DAY, NPC - 1, NPC, NPC + 1, 2 * NPC + 3, 16384 * NPC, DMAX] {
+    // every divisibility relation between the step, the day and the century: steps that divide a day, steps that do not
+    // (13 s, 7 min, 1 h 5 min, 7 h), whole days that divide a century (1, 3, 5 days...) and whole days that do not (2, 7,
+    // 10, 30, 365 days), fractions of a century, and steps beyond one century
+    for s in [
+        1i128, 2, 3, 5, 7, 10, 1000, 1_000_000, 250_000_000, NS_S, 3 * NS_S / 2, 10 * NS_S, 13 * NS_S, 60 * NS_S, 420 * NS_S, 3600 * NS_S, 3900 * NS_S, 7 * 3600 * NS_S, NS_DAY, 2 * NS_DAY, 3 * NS_DAY, 7 * NS_DAY, 10 * NS_DAY, 30 * NS_DAY,
+        365 * NS_DAY, 36_524 * NS_DAY, NPC / 2, NPC - 1, NPC, NPC + 1, 2 * NPC + 3, 3 * NPC, 16384 * NPC, DMAX,
+    ] {
         v.push(s);
         v.push(clamp(-s));
     }
@@ -279,11 +285,11 @@ impl SeqSpec for Seq {
 
 pub fn run(rep: &mut Report) {
     let deep = !rep.quick();
-    let dl = lattice::dl(if deep { 2048 } else { 256 }, true);
+    let dl = lattice::dl(if deep { 16_384 } else { 256 }, true);
     let st = steps();
     rep.bound("DL_size", dl.len() as u64);
     rep.bound("steps", st.len() as u64);
-    rep.rule = "Duration lattice DL (incl. unit multiples +-3 ns) x 35 steps of both signs (1 ns .. centuries .. MAX, and 0) under floor/ceil/round; approx on DL; epochs = counts within +-100 centuries of each scale's zero x steps x 9 scales; stateright BFS over chains of floor/ceil/round with different steps. Oracle: div_euclid on the i128 count, clamp. Non-trivial = negative count, negative step, exact multiple, or saturating result.".into();
+    rep.rule = "Duration lattice DL (incl. unit multiples +-3 ns) x 69 steps of both signs (1 ns .. centuries .. MAX, and 0; steps that do and do not divide a day, whole days that do and do not divide a century) under floor/ceil/round; approx on DL; epochs = counts within +-100 centuries of each scale's zero x steps x 9 scales; stateright BFS over chains of floor/ceil/round with different steps. Oracle: div_euclid on the i128 count, clamp. Non-trivial = negative count, negative step, exact multiple, or saturating result.".into();
     rep.assumptions = vec!["Duration::from_parts/to_parts exact (C02)".into()];
     let (n, m) = (dl.len() as u64, st.len() as u64);
     for op in 0..3 {
